@@ -571,6 +571,9 @@ class MQTTProtocol(MQTTBaseProtocol):
         if self._version == v31:
             reply.encoded[0] |=  (dup << 3)   # set the dup flag
             reply.dup = dup
+        else:
+            reply.encoded[0] &= 0xF7          # reserved in 3.1.1, even if set on an earlier 3.1 connection
+            reply.dup = False
         reply.alarm = self.callLater(reply.interval(), self._pubrelError, reply)
         log.debug("==> {packet:7} (id={reply.msgId:04x} dup={dup})", packet="PUBREL", reply=reply, dup=dup)
         self.transport.write(str(reply.encoded) if PY2 else bytes(reply.encoded))
